@@ -1207,6 +1207,11 @@ func (ex *Exec) onEventDiscipline(st *State, ev *Event) {
 			ex.checkLoopVarCapture(st, ev, props)
 		}
 	}
+	if ex.entryCt != nil && len(st.Retained) > 0 {
+		if props, ok := ex.entryCt.Discipline["retained-buffers-are-not-recycled"]; ok {
+			ex.checkRetained(st, ev, props)
+		}
+	}
 	if ex.entryCt == nil || len(st.Open) == 0 {
 		return
 	}
@@ -1401,5 +1406,74 @@ func (ex *Exec) checkLoopVarCapture(st *State, ev *Event, props []string) {
 	ob := &Obligation{Name: fmt.Sprintf("%s/discipline/goroutine-owns-its-loop-variables@%s#%d", ex.fnName(fr0.Fn), shortName(ex.fnName(fn)), ex.eventOrdinal(ev)), Kind: "ghost", Goal: goal, Props: props, Fn: fr0.Fn.String(),
 		Note: "a goroutine started in a loop captures the loop variable " + bad + ", which the loop re-assigns (per-loop variable semantics before go 1.22)"}
 	ob.Pos = ex.Prog.Fset.Position(g.Pos())
+	ex.record(st, ob)
+}
+
+// ---------- discipline retained-buffers-are-not-recycled ----------
+// A decoder declared with `retainsarg` does not copy byte fields: the decoded value shares memory with the buffer
+// it was decoded from. After such a call the buffer must not be handed to a sync.Pool (the next Get overwrites
+// it under the decoded value) and must not be written.
+
+func (ex *Exec) retain(st *State, o *Object, by string) {
+	if st.Retained == nil {
+		st.Retained = map[*Object]string{}
+	}
+	st.Retained[o] = by
+}
+
+func (ex *Exec) retainedIn(st *State, v Value, depth int) (*Object, bool) {
+	if depth > 3 {
+		return nil, false
+	}
+	switch x := v.(type) {
+	case *IfaceV:
+		return ex.retainedIn(st, x.Val, depth+1)
+	case *SliceV:
+		if x.Obj != nil {
+			if _, ok := st.Retained[x.Obj]; ok {
+				return x.Obj, true
+			}
+		}
+	case *PtrV:
+		if x.Obj != nil {
+			if _, ok := st.Retained[x.Obj]; ok {
+				return x.Obj, true
+			}
+			return ex.retainedIn(st, ex.load(st, x, nil), depth+1)
+		}
+	}
+	return nil, false
+}
+
+func (ex *Exec) checkRetained(st *State, ev *Event, props []string) {
+	var hit *Object
+	what := ""
+	switch {
+	case ev.Kind == "call" && eventMatches(ev, "(*Pool).Put"):
+		for _, a := range ev.Args {
+			if o, ok := ex.retainedIn(st, a, 0); ok {
+				hit, what = o, "recycled-through-a-pool"
+			}
+		}
+	case ev.Callee == "mem.store" && len(ev.Args) > 0:
+		if p, ok := ev.Args[0].(*PtrV); ok && p.Obj != nil {
+			if _, ok := st.Retained[p.Obj]; ok {
+				hit, what = p.Obj, "written"
+			}
+		}
+	}
+	if hit == nil {
+		return
+	}
+	fr0 := st.Frames[0]
+	site := ""
+	if ev.Instr != nil {
+		site = fmt.Sprintf("@%s#%d", shortName(ex.fnName(ev.Instr.Parent())), ex.eventOrdinal(ev))
+	}
+	ob := &Obligation{Name: fmt.Sprintf("%s/ghost:retained/%s%s", ex.fnName(fr0.Fn), what, site), Kind: "ghost", Goal: TFalse, Props: props, Fn: fr0.Fn.String(),
+		Note: "a buffer that a decoded value still shares memory with (" + st.Retained[hit] + ") is " + strings.ReplaceAll(what, "-", " ")}
+	if ev.Instr != nil {
+		ob.Pos = ex.Prog.Fset.Position(ev.Instr.Pos())
+	}
 	ex.record(st, ob)
 }
